@@ -95,6 +95,7 @@ type VC struct {
 	regions      map[string]string
 	arrayLits    map[string][]string
 	fresh_       map[string]bool
+	storeDefs    map[string][3]string     // heap version constant -> (previous version, reference, stored value)
 	closureBinds map[string][]Val         // closure terms -> the values bound at MakeClosure
 	fnOfTerm     map[string]*ssa.Function // terms known to denote a specific function / closure
 	deferred     []string
@@ -114,7 +115,7 @@ type VC struct {
 
 func newVC(p *Program, name string) *VC {
 	return &VC{prog: p, fnName: name, declared: map[string]bool{}, inlined: map[string]bool{}, assumed: map[string]bool{},
-		havocked: map[string]bool{}, structs: map[string]bool{}, litCache: map[string]string{}, compSorts: map[string]string{}, closureBinds: map[string][]Val{}, fresh_: map[string]bool{}, fnOfTerm: map[string]*ssa.Function{}, arrayLits: map[string][]string{}, regions: map[string]string{}, nonNil: map[string]bool{}, compTypes: map[string]types.Type{}, knownTag: map[string]int{}, tags: map[string]int{}, fnIDs: map[*ssa.Function]int{}}
+		havocked: map[string]bool{}, structs: map[string]bool{}, litCache: map[string]string{}, compSorts: map[string]string{}, storeDefs: map[string][3]string{}, closureBinds: map[string][]Val{}, fresh_: map[string]bool{}, fnOfTerm: map[string]*ssa.Function{}, arrayLits: map[string][]string{}, regions: map[string]string{}, nonNil: map[string]bool{}, compTypes: map[string]types.Type{}, knownTag: map[string]int{}, tags: map[string]int{}, fnIDs: map[*ssa.Function]int{}}
 }
 
 func (vc *VC) fresh(base string) string {
@@ -431,14 +432,14 @@ type Loc struct {
 }
 
 type Val struct {
-	T     string // SMT term (for pointers: the reference, when Loc == nil)
-	Loc   *Loc   // pointer known as a symbolic location
-	Tuple []Val
-	Typ   types.Type
-	Sort  string // for spec-only values without a Go type
-	Fn    *ssa.Function
-	Content string // spec values produced by old(...) / prev(...) of slice type: the backing array's content in THAT state
-	Lit   []string // slice over a fresh array literal: its element terms (variadic arguments)
+	T       string // SMT term (for pointers: the reference, when Loc == nil)
+	Loc     *Loc   // pointer known as a symbolic location
+	Tuple   []Val
+	Typ     types.Type
+	Sort    string // for spec-only values without a Go type
+	Fn      *ssa.Function
+	Content string   // spec values produced by old(...) / prev(...) of slice type: the backing array's content in THAT state
+	Lit     []string // slice over a fresh array literal: its element terms (variadic arguments)
 }
 
 type State struct {
